@@ -8,6 +8,9 @@ CHECKS = {
  "C12": dict(technique="runtime monitoring: metamorphic oracle across validation modes + RFC 6901 trace check of every returned SchemaError pointer/value, panic guard",
    text="Each (schema,value) is executed in 7 modes (default, FailFast, MultiErrors, customiser, both, IsMatching, IsMatchingJSON<T>); any verdict difference or panic is a violation; every SchemaError returned directly or inside a MultiError has its JSONPointer resolved in the validated value and its quoted Value compared; pointer must be stable across calls. Held on the executions listed in evidence.",
    note="Relies on the pointer convention for 'required' (enclosing object + missing key); errors under Origin are not asserted; VisitJSON<Type> entry points are outside the statement and not compared.", ref="4 C12"),
+ "C19": dict(technique="runtime monitoring: taint-style marker monitor — unique marker strings at every string leaf of rejected values, substring search over every reachable SchemaError.Reason and over Error() with details disabled / reason-only customiser",
+   text="Every rejected (schema, marked value) execution has all reachable SchemaErrors (MultiError members, Origin/Unwrap chains, oneOf sub-errors) walked; a marker inside any Reason, inside Error() under SchemaErrorDetailsDisabled (odd shards, own process) or inside a reason-only customised message is a violation. Held on the executions in evidence; every SchemaField has a floor of inspected reasons.",
+   note="Object keys are not value strings; custom format validators registered by the harness do not quote input; request-level reason-only messages are additionally exercised by the openapi3filter checks once built.", ref="4 C19"),
 }
 NOT_YET = {}
 def main():
